@@ -171,8 +171,10 @@ class Generator(object):
         self.encode_variable_lines = []
         self.decode_variable_lines = []
         self.used_user_types = []
+        self.buffer_default_variables = {}
 
     def reset_type(self):
+        self.buffer_default_variables = {}
         self.helper_lines = []
         self.base_variables = set()
         self.used_suffixes_by_base_variables = {}
@@ -582,13 +584,7 @@ class Generator(object):
             name = '{}{}'.format(location, canonical(member.name))
 
             if self.is_buffer_type(member):
-                if len(member.default) == 0:
-                    raise self.error(
-                        'Empty OCTET STRING DEFAULT is not supported.')
-
-                default_value = '{{' + ', '.join(['0x%02X' % m for m in member.default]) + '}};'
-                default_variable = self.add_unique_variable('static const uint8_t {}[] = ' + default_value,
-                                                            canonical(member.name) + '_default')
+                default_variable = self.get_buffer_default_variable(member)
 
                 encode_lines = [
                                    '',
@@ -648,6 +644,30 @@ class Generator(object):
                 ]
 
         return encode_lines, decode_lines
+
+    def get_buffer_default_variable(self, member):
+        """Name of the constant that holds the default value of given
+        OCTET STRING member. Members with the same name at different
+        levels of a type get different constants.
+
+        """
+
+        try:
+            return self.buffer_default_variables[id(member)]
+        except KeyError:
+            pass
+
+        if len(member.default) == 0:
+            raise self.error(
+                'Empty OCTET STRING DEFAULT is not supported.')
+
+        default_value = '{{' + ', '.join(['0x%02X' % m for m in member.default]) + '}};'
+        default_variable = self.add_unique_variable(
+            'static const uint8_t {}[] = ' + default_value,
+            canonical(member.name) + '_default')
+        self.buffer_default_variables[id(member)] = default_variable
+
+        return default_variable
 
     @staticmethod
     def format_buffer_not_default_condition(name,
